@@ -174,6 +174,7 @@ structure Params where
   nbLayers : Nat
   nbDataBlocks : Nat
   sides : List Nat
+  deriving Repr, DecidableEq
 
 /-- `extractParameters(bullsEyeCorners)`; `expected` = EXPECTED_CORNER_BITS, `rs` = the Reed-Solomon decoder
     over GF(16) (both parameters, as in the C11 model whose integer tail this reuses) -/
